@@ -713,7 +713,7 @@ def oracle_step(step, outcome, before, after) -> list:
     after = [f for f in after if not f[0].startswith('latest')]
     missing = [f for f in before if f not in after]
     if missing:
-        out.append((f'{missing[0][:4]} was visible before the step and is changed or gone after it', 'not-append-only'))
+        out.append((f'{_short(missing[0])} was visible before the step and is changed or gone after it', 'not-append-only'))
     new = [f for f in after if f not in before]
     rb, _, gb, _ = _index(before)
     ra, ma, ga, sa = _index(after)
@@ -723,7 +723,7 @@ def oracle_step(step, outcome, before, after) -> list:
             out.append((f'generations of {p}/{v} are {nums}', 'generation-gap'))
     if outcome != 'ok':
         if new:
-            out.append((f'step failed with {outcome} but {new[0][:4]} appeared', 'failed-step-changed-view'))
+            out.append((f'step failed with {outcome} but {_short(new[0])} appeared', 'failed-step-changed-view'))
         return out
     if step[0] == 'publish':
         _, _, name, spelt, kind = step
@@ -738,7 +738,7 @@ def oracle_step(step, outcome, before, after) -> list:
         else:
             want = [['rel', name, vidx, 'dir', 'ok']] + [['member', name, vidx, i, ['file', b]] for i, b in model[1]]
         if sorted(new, key=repr) != sorted(want, key=repr):
-            out.append((f'publish of {NAMES[name]}-{_ver(spelt)} added {[f[:4] for f in new]}', 'publish-wrong-content'))
+            out.append((f'publish of {NAMES[name]}-{_ver(spelt)} added {[_short(f) for f in new]}', 'publish-wrong-content'))
     else:
         _, proj, spelt, ordinal, states = step
         vidx = _rank(spelt)
@@ -769,10 +769,15 @@ def oracle_step(step, outcome, before, after) -> list:
 def oracle_crash(before, after, crashed_view) -> list:
     out = list(corrupt_items(crashed_view))
     if not out and crashed_view != before and crashed_view != after:
-        diff = [f[:4] for f in crashed_view if f not in before and f not in after] \
-            or [f[:4] for f in before if f not in crashed_view]
+        diff = [_short(f) for f in crashed_view if f not in before and f not in after] \
+            or [_short(f) for f in before if f not in crashed_view]
         out.append((f'crashed view is neither the previous nor the complete new one ({diff[:2]})', 'crash-neither-old-nor-new'))
     return out
+
+
+def _short(f):
+    """a fact without its payload (for messages)"""
+    return f[:3] if f[0] == 'rel' else f[:4]
 
 
 def _strip(view):
@@ -1105,7 +1110,7 @@ class C05(fw.Check):
                 for n, (fresh, cached) in enumerate(zip([r['views'][0]] + plain, r['long_lived'])):
                     self.case(('long-lived', repr(hist[:n])), 'long-lived reader (caches never cleared)', nontrivial=n > 0)
                     if fresh != cached:
-                        diff = [f[:4] for f in cached if f not in fresh] or [f[:4] for f in fresh if f not in cached]
+                        diff = [_short(f) for f in cached if f not in fresh] or [_short(f) for f in fresh if f not in cached]
                         self.violate(f'a long-lived reader (cached tags / states) sees {diff[:2]} differently from a fresh reader',
                                      {'history': hist[:n], 'crash': None, 'reader': 'long-lived'}, 'long-lived-reader-stale')
 
